@@ -10,9 +10,12 @@ def build(ck):
 
 RULE = ("all histories of free choices on a private copy of the dependency graph main.c -> a.h -> b.h, main.c inherits base.c (-> c.h) which inherits deep.c [and base2.c], main.c calls a simul_efun; "
         "part A: all 2^6 program variants {string switch, int-range switch, class, function literals, #pragma save_types, second inherit} x histories of depth D over "
-        "{load+save, load, reload(main only), failed load of an unrelated file that does not compile, edit(main.c|a.h|b.h|base.c|c.h|deep.c), delete(main.b|base.b)}; part B: variants {all features, none} x histories of depth D over the 38-op alphabet that adds "
+        "{load+save, load, reload(main only), failed load of an unrelated file that does not compile, edit(main.c|a.h|b.h|base.c|c.h|deep.c), delete(main.b|base.b)}; part B: variants {all features, none} x histories of depth D over the 40-op alphabet that adds "
         "touch(f), mtime(f) earlier/equal/later than main.b for the five sources, mtime(main.b) far earlier/later, mtime(base.b) earlier/equal/later than main.b, "
-        "touch(simul_efun.c)+restart stamp, bump(driver_id); every load starts from an empty object table (as after a restart); explicit utimensat times + virtual clock. "
+        "touch(simul_efun.c)+restart stamp, edit(simul_efun.c) while the driver keeps running, restart (stamps taken again), bump(driver_id); every load starts from an empty object table (as after a restart); explicit utimensat times + virtual clock. "
+        "part big-code: variants {all features, string switch only} with a filler function of r expressions in front of run(), every r for which a byte of run() - its switch instruction, "
+        "its string-switch table, the function literals - lies at code offset 32767 +- 60 (about 190 / 100 values of r, measured at start-up), history load+save, load; part big-lines: run() behind "
+        "33000 blank lines, all histories of depth 2 over the part A alphabet. "
         "Oracle at every load and after every history: reference staleness predicate on what the open() log shows was used; loaded program (and its inherits) dump == dump of a "
         "compile of the current sources with binaries disabled; results of run(a,s) on 6 argument pairs and of two failing calls (error text, file, line, trace) equal. "
         "Canonical state for merging: step, variant, content version and time-stamp rank of every file, existence / rank / built-from versions of every binary, stamp changes, "
@@ -27,6 +30,10 @@ def run(ck):
     exe = build(ck)["h_c17"]
     quick = ck.tier == "quick"
     dA, dB = (3, 3) if quick else (4, 4)
+    # large programs first (cheap): run()'s string switch swept across code offset 32767 by a filler function, and run() behind 33000 lines
+    for v in (63, 1):
+        ck.explore(exe, ["--prog=%d" % v, "--pad-sweep=1"], "big-code-p%02d" % v, budget=0, deadline_s=40 if quick else 120, timeout_ms=30000, jobs=16)
+    ck.explore(exe, ["--prog=63", "--pad-lines=33000", "--depth=2", "--ops-full=0"], "big-lines-p63", budget=0, deadline_s=40 if quick else 120, timeout_ms=30000, jobs=16)
     for v in (63, 0):
         ck.explore(exe, ["--prog=%d" % v, "--depth=%d" % dB], "B%d-p%02d" % (dB, v), budget=0, deadline_s=50 if quick else 900, timeout_ms=30000, jobs=16)
     ck.explore(exe, ["--prog=-1", "--depth=%d" % (dA - 1), "--ops-full=0"], "A%d-all64" % (dA - 1), budget=0, deadline_s=45 if quick else 300, timeout_ms=30000, jobs=16)
